@@ -167,6 +167,12 @@ class KPipe:
         self.msgs = []     # each: [payload bytes, total bytes incl. header, sent, read]
         self.readers = 0
         self.writers = 0
+        # a write of at most PIPE_BUF bytes is atomic (all of it or it blocks); the real ratio
+        # capacity / PIPE_BUF (65536 / 4096) is kept for the small capacities some programs use
+        self.pipe_buf = max(4, cap // 16)
+        # bytes of one message written into the middle of another one (two writers, one of
+        # them inside a multi-chunk write): the byte stream no longer parses into messages
+        self.corrupt = False
 
     def ref(self, which, d):
         if which == "r":
@@ -185,7 +191,7 @@ class KPipe:
 
     def sig(self):
         return (len(self.msgs), self.used() > 0 and self.msgs[-1][2] < self.msgs[-1][1],
-                self.readers, self.writers)
+                self.readers, self.writers, self.corrupt)
 
 
 class KSem:
